@@ -383,6 +383,8 @@ def get_confirmed_edges_for_node(graph: nx.MultiDiGraph, node: DSGNode, include_
 
         # Load from cache if available
         if node in conf_edges_cache:
+            # Nodes that lead here later in this walk take their edges from this entry
+            _traversed[node] = conf_edges_cache[node]
             return conf_edges_cache[node].copy()
 
     # Loop over outgoing edges
@@ -438,9 +440,14 @@ def get_confirmed_edges_for_node(graph: nx.MultiDiGraph, node: DSGNode, include_
     # Update the traversed edges for this node
     _traversed[node] = confirmed_edges
 
-    # Update traversed edges for nodes part of a loop
-    for tgt_node, src_node in _traversed_to_update:
-        _traversed[tgt_node].update(_traversed[src_node])
+    # Update traversed edges for nodes part of a loop (updates can be chained, so repeat until nothing changes)
+    updated = True
+    while updated:
+        updated = False
+        for tgt_node, src_node in _traversed_to_update:
+            if not _traversed[src_node].issubset(_traversed[tgt_node]):
+                _traversed[tgt_node].update(_traversed[src_node])
+                updated = True
 
     # Update cache only if this was the originally-requested start node
     if conf_edges_cache is not None and is_request_start:
